@@ -93,7 +93,10 @@ def run_direct(chk, n_cfg):
                 if shared[1](cb) is not cb:
                     chk.violation('direct', 'decorator-return', {'case': {'listener': i}}, 'the listener decorator does not return the function it registered')
             else:
-                conn.register_packet_listener(cb, *[classes[j] for j in flt], early=early, outgoing=out)
+                # the flags as an application may pass them: the bool itself, the equal integer, or None for "not set"
+                # (a wrapper that forwards its own optional arguments); all have the truth value of the flag
+                as_given = lambda b: rng.choice([b, b, int(b)] if b else [b, b, 0, None])
+                conn.register_packet_listener(cb, *[classes[j] for j in flt], early=as_given(early), outgoing=as_given(out))
             ls.append((i, early, out, flt, beh))
         rbeh = {k: rng.choice(['ret'] * 8 + ['ign', 'ign', ('raise', 900)]) for k in keys}
 
